@@ -42,7 +42,7 @@ PROPS = {
     "C09": {"families": ["stop", "core", "conn"],
             "nontrivial_rule": "a stop call with a store operation of that instance in flight or a leader being stopped",
             "mc": ["MC_Core2"]},
-    "C10": {"families": ["prio"],
+    "C10": {"families": ["prio", "regress"],
             "nontrivial_rule": "a takeover-enabled instance meets a live record of another instance",
             "mc": ["MC_Prio"]},
     "C11": {"families": ["conn"],
